@@ -150,9 +150,10 @@ func zzCConn(isClient, is13 bool, base int) *Conn {
 // handshake cache equals exactly the list of messages whose last byte has arrived, in sequence order: each
 // message is inserted once, never before it is complete, never a second time on retransmitted pieces, with
 // data = header(type, L, seq, 0, L) + original body, its epoch, sequence, type and the peer's role; records
-// of already cached messages are reported as retransmit.
+// of already cached messages are reported as retransmit. The caller's record buffer is overwritten after every call
+// (the read loop reuses it): cached messages are unaffected.
 //
-//symgo:entry covers=packed_record,cached_one,cached_two_at_once,cached_none_yet,retransmit_not_cached_again,complete_waiting_for_earlier,v12,v13
+//symgo:entry paths=80000 covers=packed_record,cached_one,cached_two_at_once,cached_none_yet,retransmit_not_cached_again,complete_waiting_for_earlier,v12,v13
 func zzCacheOnce() {
 	isClient := zzsymBool("isClient")
 	is13 := zzsymChoice("is13", 2) == 1
@@ -195,6 +196,11 @@ func zzCacheOnce() {
 		hdr := &recordlayer.Header{ContentType: protocol.ContentTypeHandshake, Version: protocol.Version1_2,
 			Epoch: m.epoch, SequenceNumber: uint64(i), ContentLen: uint16(len(payload))}
 		outcome, handled, _ := c.bufferHandshakeRecord(buf, hdr, func() bool { marks++; return true })
+		// the read loop owns buf and reuses it for the next datagram (pooled read buffer, in-place AEAD decryption):
+		// whatever the buffer layer keeps must be its own copy
+		for k := range buf {
+			buf[k] ^= 0xff
+		}
 		zzsymAssert(handled, "record_handled")
 		zzsymAssert(outcome.containsHandshake, "record_contains_handshake")
 		zzsymAssert(marks == i+1, "record_marked_valid_once")
